@@ -18,4 +18,10 @@ theorem sequencer_enqueues_before_commit :
 unknown / repair failed with a storage error) before the head is popped. -/
 theorem retry_keeps_head_unless_resolved : retryEarlyReturnsBeforePop = 4 := by decide
 
+/-- C09: `Compact` samples the read revision before it asks the retry queue for its oldest unresolved revision.
+Together with `seqAppendBeforeCommit` (the sequencer queues an unknown-outcome write before it advances the read
+revision) this is why the cap is never missed: a revision the compactor sees as readable has its unresolved
+writes already queued when the compactor looks at the queue (the model's compaction step reads both atomically). -/
+theorem compact_samples_revision_before_queue : compactSamplesRevisionBeforeQueue = true := by decide
+
 end KB.OrderC09
